@@ -955,6 +955,27 @@ int main (void)
       else printf ("ok ret %zd\n", r);
       for (k = 0; k < nv; k++) free ((void *) v[k].buffer);
     }
+    else if (!strcmp (w[0], "sendm") && n == 5 && (g = find_ag (w[1]))) {
+      /* several messages in ONE nice_agent_send_messages_nonblocking call: messages separated by '/', each given as
+       * <len>:<seed> (byte j = (seed * 31 + j * 13) & 0xff) split over two buffers; returns how many were accepted */
+      NiceOutputMessage ms[16]; GOutputVector vs[32]; int nm = 0, k; GError *e = NULL; gint r; char *tok, *save = NULL;
+      for (tok = strtok_r (w[4], "/", &save); tok && nm < 16; tok = strtok_r (NULL, "/", &save)) {
+        long len = atol (tok); int seed = strchr (tok, ':') ? atoi (strchr (tok, ':') + 1) : 0; long j, cut;
+        uint8_t *b;
+        if (len < 0 || len > 1 << 20) break;
+        b = malloc (len ? (size_t) len : 1);
+        for (j = 0; j < len; j++) b[j] = (uint8_t) (seed * 31 + j * 13);
+        cut = len / 3;
+        vs[2 * nm].buffer = b; vs[2 * nm].size = (gsize) cut;
+        vs[2 * nm + 1].buffer = b + cut; vs[2 * nm + 1].size = (gsize) (len - cut);
+        ms[nm].buffers = &vs[2 * nm]; ms[nm].n_buffers = 2; nm++;
+      }
+      r = nice_agent_send_messages_nonblocking (g->agent, atoi (w[2]), atoi (w[3]), ms, nm, NULL, &e);
+      total_dispatches += iterate_ready ();
+      if (e) { printf ("ok ret %d err %s-%d\n", r, g_quark_to_string (e->domain), e->code); g_error_free (e); }
+      else printf ("ok ret %d\n", r);
+      for (k = 0; k < nm; k++) free ((void *) vs[2 * k].buffer);
+    }
     else if (!strcmp (w[0], "recvnb") && n == 5 && (g = find_ag (w[1]))) {
       /* nice_agent_recv_messages_nonblocking into ONE message scattered over exactly-sized buffers of the given sizes
        * (a,b,c); the buffers are pre-filled with 0xEE so that a gap left by the library shows in the gathered bytes */
